@@ -2,5 +2,6 @@ SPECIFICATION Spec
 CONSTANTS
   Ks = {1, 2, 3, 7, 50, 1000}
   MaxRep = 3
-INVARIANTS TypeOK CompleteIsValid ForcedNeedsCollector ConcreteFaithful BaselineValid DiffSound StarCovers MachineInSpace
+  MaxBatch = 4
+INVARIANTS TypeOK CompleteIsValid ForcedNeedsCollector ConcreteFaithful BaselineValid DiffSound StarCovers MachineInSpace BatchesOk ViewsSound PairsCover
 CHECK_DEADLOCK FALSE
